@@ -19,10 +19,10 @@ def build_pool(seed, n=60):
     pool = []
     # definers of the shared names, with different values
     for k, v in enumerate([5, 77, 1234]):
-        pool.append({'src': 'SHARED_K = %d\nnop\nSHARED_L:\naddi x8, x8, SHARED_K\nli x5, SHARED_L\n%s' % (v, 'nop\n' * k), 'compress': bool(k & 1), 'dicts': True})
+        pool.append({'src': 'SHARED_K = %d\nnop\nSHARED_L:\naddi x8, x8, SHARED_K\nli x5, SHARED_L\n%s' % (v, 'nop\n' * k), 'compress': bool(k & 1), 'dicts': k != 1})
     # users that never define them: must keep failing whatever ran before
     for f in FAILING:
-        pool.append({'src': 'L0:\nK0 = 3\naddi x1, x1, K0\n%s\nj L0\n' % f, 'compress': rng.random() < 0.5, 'dicts': rng.random() < 0.7})
+        pool.append({'src': 'L0:\nK0 = 3\naddi x1, x1, K0\n%s\nj L0\n' % f, 'compress': rng.random() < 0.5, 'dicts': not f.endswith('SHARED_L') and rng.random() < 0.7})
     # same label / constant names, different values
     while len(pool) < n - 4:
         items = randprog.gen(rng, dict(n=(3, 25), labels=(1, 4)))
